@@ -290,7 +290,41 @@ def check_widget(ctx: Ctx, mode, name, path, build, tier, inherited=None):
     for size in sizes_for(sz, tier):
         for focus in (False, True):
             check_render(ctx, mode, name, shp, path, build, size, focus, inherited or {}, kinds)
+    if not kinds:
+        warm_pass(ctx, mode, name, shp, path, build, sizes_for(sz, tier))
     return sz, kinds
+
+
+def warm_pass(ctx: Ctx, mode, name, shp, path, build, sizes):
+    """the same widget instance rendered at every size twice with the canvas cache left alone: a canvas handed to a parent
+    must not have been altered by that parent, so the second round still has to agree with rows()/pack()"""
+    urwid.CanvasCache.clear()
+    w = build()
+    for rnd in (0, 1):
+        for size in sizes:
+            for focus in (False, True):
+                ctx.count("evaluations")
+                case = {"mode": mode, "tree": path, "name": name, "size": size, "focus": focus, "warm": True}
+                try:
+                    canv = w.render(size, focus)
+                    cols, rows = canv.cols(), canv.rows()
+                    if len(size) == 2:
+                        exp = tuple(size)
+                    elif len(size) == 1:
+                        exp = (size[0], w.rows(size, focus))
+                    else:
+                        exp = tuple(w.pack((), focus))
+                except Exception as e:
+                    ctx.violation("warm-cache", f"C01/warm-cache/{shp}/{size_class(size)}/{exc_site(e)}", case,
+                                  f"{name}: render/rows of the same instance with a warm cache (round {rnd}) raised {type(e).__name__}: {str(e)[:200]}")
+                    urwid.CanvasCache.clear()
+                    return
+                if (cols, rows) != exp:
+                    ctx.violation("warm-cache", f"C01/warm-cache/{shp}/{size_class(size)}", case,
+                                  f"{name}.render({size}, {focus}) with a warm cache (round {rnd}) returned {cols}x{rows}, rows()/pack() say {exp[0]}x{exp[1]}")
+                    urwid.CanvasCache.clear()
+                    return
+    urwid.CanvasCache.clear()
 
 
 def check_render(ctx: Ctx, mode, name, shp, path, build, size, focus, inherited=None, kinds=None):
